@@ -49,6 +49,26 @@ static void t_free (ppointer p) {
 static double now (void) { struct timespec ts; clock_gettime (CLOCK_MONOTONIC, &ts); return ts.tv_sec + ts.tv_nsec * 1e-9; }
 static int wait_until (volatile pint *v, int want) { double t0 = now (); while (p_atomic_int_get (v) < want) { if (now () - t0 > 10.0) return 0; sched_yield (); } return 1; }
 
+/* first use of a fresh key by several threads at once: "race N" arms a rendezvous; the thread op "bar" is a spin barrier right before
+ * the first TLS call, and pthread_key_create (wrapped at link time) returns late - after the others arrived or 20 ms - so that the lazy
+ * creation of the native key is a real race.  The wrapper changes no result. */
+#include <pthread.h>
+static volatile int kc_expect, kc_arrived, bar_count;
+int __real_pthread_key_create (pthread_key_t *, void (*) (void *));
+int __wrap_pthread_key_create (pthread_key_t *k, void (*d) (void *)) {
+	int r = __real_pthread_key_create (k, d);
+	if (__atomic_load_n (&kc_expect, __ATOMIC_SEQ_CST) > 1) {
+		double t0 = now ();
+		__atomic_add_fetch (&kc_arrived, 1, __ATOMIC_SEQ_CST);
+		while (__atomic_load_n (&kc_arrived, __ATOMIC_SEQ_CST) < __atomic_load_n (&kc_expect, __ATOMIC_SEQ_CST) && now () - t0 < 0.02) ;
+	}
+	return r;
+}
+static void spin_barrier (void) {
+	double t0 = now (); int n = __atomic_load_n (&kc_expect, __ATOMIC_SEQ_CST);
+	__atomic_add_fetch (&bar_count, 1, __ATOMIC_SEQ_CST);
+	while (__atomic_load_n (&bar_count, __ATOMIC_SEQ_CST) < n && now () - t0 < 10.0) ;
+}
 static void tls_op (int t, const char *op, int k, int v, long myval[]) {
 	if (!strcmp (op, "tset")) { p_uthread_set_local (keys[k], (ppointer) (long) v); VTM ("\"e\":\"tset\",\"k\":%d,\"t\":%d,\"v\":%d", k, t, v); myval[k] = v; }
 	else if (!strcmp (op, "trepl")) {
@@ -78,6 +98,7 @@ static void *thread_fn (void *arg) {
 			if (o->op[0] == 'e') p_uthread_exit (o->a);
 			return NULL;
 		}
+		else if (!strcmp (o->op, "bar")) spin_barrier ();
 		else tls_op (h, o->op, o->a, o->b, myval);
 	}
 	return NULL;
@@ -105,6 +126,7 @@ int main (int argc, char **argv) {
 			haddr[a] = hd[a]; p_atomic_int_inc (&ncreated);
 			VTM ("\"e\":\"create\",\"h\":%d,\"j\":%d", a, b);
 		}
+		else if (!strcmp (op, "race")) { __atomic_store_n (&kc_arrived, 0, __ATOMIC_SEQ_CST); __atomic_store_n (&bar_count, 0, __ATOMIC_SEQ_CST); __atomic_store_n (&kc_expect, a, __ATOMIC_SEQ_CST); }
 		else if (!strcmp (op, "go")) p_atomic_int_set (&gate[a], b);
 		else if (!strcmp (op, "waitst")) { if (!wait_until (&state[a], b)) { fprintf (stderr, "waitst timeout\n"); } }
 		else if (!strcmp (op, "ref")) { p_uthread_ref (hd[a]); VTM ("\"e\":\"ref\",\"h\":%d", a); }
@@ -117,6 +139,7 @@ int main (int argc, char **argv) {
 			wait_until (&nfreed, p_atomic_int_get (&ncreated));
 			wait_until (&got_destroy, p_atomic_int_get (&exp_destroy));
 			for (k = 1; k < MAXK; k++) if (keys[k]) { if (mainval[k]) { p_uthread_set_local (keys[k], NULL); mainval[k] = 0; } p_uthread_local_free (keys[k]); keys[k] = NULL; }
+			__atomic_store_n (&kc_expect, 0, __ATOMIC_SEQ_CST);
 			VTM ("\"e\":\"Epoch\"");
 			for (h = 1; h < MAXH; h++) { ntops[h] = 0; hd[h] = NULL; cellv[h] = 0; }
 		}
